@@ -857,6 +857,53 @@ pub fn gen_boundary_distance_plaintext(rng: &mut Rng, w: u32, rounds: usize) -> 
     out
 }
 
+/// plaintext of about 100 KiB whose only repeats are far ones (distance 32400..32768) and sit in
+/// the bands around offsets 65032 and 97288, where the predictor's 16-bit hash-chain positions
+/// are slid down (`reshift`): the entries that survive the slide decide whether such a match is
+/// still predicted. Returned with a compressor that uses the whole window.
+pub fn gen_reshift_band_stream(rng: &mut Rng) -> (Compressor, Vec<u8>, Vec<u8>) {
+    let total = 97288 + rng.range(500, 3000) as usize;
+    let mut out: Vec<u8> = Vec::with_capacity(total + 64);
+    let bands: [(usize, usize); 2] = [(65032 - 700, 65032 + 400), (97288 - 700, 97288 + 400)];
+    while out.len() < total {
+        let pos = out.len();
+        let in_band = bands.iter().any(|&(a, b)| pos >= a && pos < b);
+        if in_band && rng.chance(4, 5) {
+            let d = rng.range(32400, 32768) as usize;
+            let len = rng.range(3, 70) as usize;
+            let from = pos - d;
+            for k in 0..len {
+                let b = out[from + k];
+                out.push(b);
+            }
+            for _ in 0..rng.range(1, 5) {
+                out.push(0x80 + rng.below(0x7f) as u8);
+            }
+        } else {
+            // 7-bit noise in pieces (no repeats of length 3 in practice)
+            for _ in 0..rng.range(8, 64) {
+                out.push(0x20 + rng.below(0x5f) as u8);
+            }
+        }
+    }
+    let c = match rng.below(4) {
+        0 => Compressor::Libdeflate { level: rng.range(1, 12) as i32 },
+        1 => Compressor::Miniz { level: rng.range(1, 9) as u8 },
+        2 => Compressor::ZlibNg { level: rng.range(1, 9) as i32 },
+        _ => {
+            let mut p = crate::lz77::Lz77Params::random(rng);
+            p.window_bits = 15;
+            p.very_far = true;
+            p.max_dist_3 = 32768;
+            p.block_tokens = p.block_tokens.max(16);
+            p.literals_only = false;
+            Compressor::Lz77(p)
+        }
+    };
+    let raw = c.compress(&out);
+    (c, out, raw)
+}
+
 /// a file whose single member compresses better than 258:1 (a run or a short period of
 /// `plain_len` bytes), wrapped without junk: the file is tiny compared with its expanded form
 pub fn gen_high_ratio_file(rng: &mut Rng, plain_len: usize) -> Vec<u8> {
